@@ -661,6 +661,20 @@ def keyless_public_key_forgeries(blob: bytes, hash_name: str, group_p: int, grou
         ("the group's own parameters, public key p-1 (secret 1)", group_p, group_g, group_p - 1, group_kl, 1),
         ("the group's own parameters, public key p-1 (secret p-1)", group_p, group_g, group_p - 1, group_kl, group_p - 1),
     ]
+    # cross-parameter family (added after the seeded change C04-dh-exchange-in-group-field-claimed-modulus-r8): the key blob keeps the
+    # group's key length but CLAIMS another modulus, and its public value is degenerate modulo the group's real modulus (or modulo the
+    # claimed one). A receiver that range-checks against one modulus and exponentiates in the other computes a secret anyone knows.
+    top = 256 ** group_kl
+    for claimed in (top - 1, group_p + 2, 2 * group_p + 1, group_p - 2):
+        if not 3 < claimed < top:
+            continue
+        for pub in (group_p, group_p + 1, group_p - 1, 2 * group_p - 1, 2 * group_p, 2 * group_p + 1, claimed - 1, claimed, claimed + 1, 0, 1):
+            if not 0 <= pub < top:
+                continue
+            for secret in sorted({0, 1, group_p - 1, claimed - 1}):
+                fam.append((f"group key length, claimed modulus {'2^n-1' if claimed == top - 1 else 'p%+d' % (claimed - group_p) if abs(claimed - group_p) < 9 else '2p+1'}, "
+                            f"public value {pub - group_p:+d} from the group modulus, candidate secret {secret if secret < 2 else 'modulus-1'}",
+                            claimed, group_g, pub, group_kl, secret))
     for what, p, g, pub, kl, secret in fam:
         try:
             yield what, retarget_to_public_key_mode(blob, hash_name, p, g, pub, kl, secret, forged)
